@@ -7,4 +7,90 @@ import (
 	"verif/internal/dval"
 )
 
-func typedConvCases(l *dval.Lines, tier string, r *rand.Rand, emit func(core.Case)) {}
+// typedConvCases: conversions into the types that are not numbers (C10): the case names what the
+// source denotes (`want', canonical text) and whether the target type contains it (`member').
+func typedConvCases(l *dval.Lines, tier string, r *rand.Rand, emit func(core.Case)) {
+	type src = map[string]any
+	s := func(v string) src { return src{"go": "string", "v": v} }
+	add := func(leaf, f string, source src, member bool, want string) {
+		emit(core.Case{"kind": "convx", "leaf": leaf, "fmt": f, "src": source, "member": member, "want": want})
+	}
+	// boolean
+	add("b", "boolean", src{"go": "bool", "v": "true"}, true, "true")
+	add("b", "boolean", src{"go": "bool", "v": "false"}, true, "false")
+	add("b", "boolean", s("true"), true, "true")
+	add("b", "boolean", s("false"), true, "false")
+	// "1" / "yes" / "0" are lenient spellings the library takes on purpose: same truth value, not generated
+	for _, bad := range []string{"abc", "", "truefalse", "2", "-1", "t rue", "TRUE "} {
+		add("b", "boolean", s(bad), false, "")
+	}
+	// string: the text itself, nothing trimmed or folded
+	for _, t := range []string{"", " ", " a ", "a\tb", "é", "日本", "0", "007", "+1", "1e3", "true", "a\nb", "\"q\"", "%41", "a/b"} {
+		add("s", "string", s(t), true, t)
+	}
+	add("s", "string", src{"go": "int", "v": "5"}, true, "5")
+	add("s", "string", src{"go": "int64", "v": "-9223372036854775808"}, true, "-9223372036854775808")
+	add("s", "string", src{"go": "uint64", "v": "18446744073709551615"}, true, "18446744073709551615")
+	add("s", "string", src{"go": "bool", "v": "true"}, true, "true")
+	add("s", "string", src{"go": "jsonnumber", "v": "12345678901234567890"}, true, "12345678901234567890")
+	// binary: RFC 7950 9.8 base64
+	add("bin", "binary", s("AQID"), true, "AQID")
+	add("bin", "binary", s("aGk="), true, "aGk=")
+	add("bin", "binary", s(""), true, "")
+	add("bin", "binary", src{"go": "bytes", "v": "hi"}, true, "aGk=")
+	for _, bad := range []string{"!!!", "AQI", "A=ID", "aGk"} {
+		add("bin", "binary", s(bad), false, "")
+	}
+	// enumeration zeta=0 one=1 alpha=5
+	for _, e := range []struct{ l, v string }{{"zeta", "0"}, {"one", "1"}, {"alpha", "5"}} {
+		add("en", "enumeration", s(e.l), true, e.l)
+		add("en", "enumeration", src{"go": "int", "v": e.v}, true, e.l)
+	}
+	for _, bad := range []string{"nope", "", "Zeta", "zeta ", "one alpha"} {
+		add("en", "enumeration", s(bad), false, "")
+	}
+	for _, bad := range []string{"2", "3", "4", "6", "-1", "70000"} {
+		add("en", "enumeration", src{"go": "int", "v": bad}, false, "")
+	}
+	add("len", "enumeration-list", src{"go": "strings", "l": []string{"one", "alpha"}}, true, "one alpha")
+	add("len", "enumeration-list", src{"go": "strings", "l": []string{"alpha", "zeta", "alpha"}}, true, "alpha zeta alpha")
+	add("len", "enumeration-list", src{"go": "anys", "l": []string{"zeta"}}, true, "zeta")
+	add("len", "enumeration-list", src{"go": "ints", "l": []string{"5", "0"}}, true, "alpha zeta")
+	add("len", "enumeration-list", src{"go": "strings", "l": []string{"one", "nope"}}, false, "")
+	add("len", "enumeration-list", src{"go": "ints", "l": []string{"1", "3"}}, false, "")
+	// bits b0 b1 b5: canonical order is by position
+	add("bt", "bits", s("b0"), true, "b0")
+	add("bt", "bits", s("b0 b5"), true, "b0 b5")
+	add("bt", "bits", s("b5 b0"), true, "b0 b5")
+	add("bt", "bits", s("b1 b0 b5"), true, "b0 b1 b5")
+	add("bt", "bits", src{"go": "strings", "l": []string{"b1"}}, true, "b1")
+	add("bt", "bits", src{"go": "strings", "l": []string{"b5", "b1"}}, true, "b1 b5")
+	for _, bad := range []string{"b9", "b0 b9", "B0", "b0,b1"} {
+		add("bt", "bits", s(bad), false, "")
+	}
+	// identityref base ibase: d1, d2 (derived from d1); `other' is not derived from it
+	for _, id := range []string{"d1", "d2"} {
+		add("idr", "identityref", s(id), true, id)
+		add("idr", "identityref", s("cx:"+id), true, id)
+	}
+	for _, bad := range []string{"other", "nope", "", "cx:other", "D1"} {
+		add("idr", "identityref", s(bad), false, "")
+	}
+	// union { int32; boolean }
+	add("un", "union", src{"go": "int", "v": "5"}, true, "5")
+	add("un", "union", src{"go": "int", "v": "-2147483648"}, true, "-2147483648")
+	add("un", "union", src{"go": "bool", "v": "true"}, true, "true")
+	add("un", "union", s("17"), true, "17")
+	add("un", "union", s("false"), true, "false")
+	for _, bad := range []string{"abc", "", "1.5", "99999999999", "truee"} {
+		add("un", "union", s(bad), false, "")
+	}
+	add("un", "union", src{"go": "int64", "v": "99999999999"}, false, "")
+	add("un", "union", src{"go": "float64", "v": "1.5"}, false, "")
+	// lists of strings and booleans
+	add("ls", "string-list", src{"go": "strings", "l": []string{"a", " b ", ""}}, true, "a\x1f b \x1f")
+	add("ls", "string-list", src{"go": "anys", "l": []string{"x", "y"}}, true, "x\x1fy")
+	add("lb", "boolean-list", src{"go": "bools", "l": []string{"true", "false", "true"}}, true, "true false true")
+	add("lb", "boolean-list", src{"go": "strings", "l": []string{"true", "false"}}, true, "true false")
+	add("lb", "boolean-list", src{"go": "strings", "l": []string{"true", "maybe"}}, false, "")
+}
